@@ -432,6 +432,99 @@ func TestVerif_C04Pipe(t *testing.T) {
 	}
 }
 
+// TestVerif_C04Relink: the storage behind the output path changes while a camera is connected
+// (a card mounted over it, a symbolic link pointed elsewhere): the disk check is about the place
+// the next recording would go to, frame by frame. Two file systems with very different free
+// space (the scratch disk and /dev/shm), min-disk-space-mb between the two, output-dir a
+// symbolic link that is re-pointed between two motion bursts.
+func TestVerif_C04Relink(t *testing.T) {
+	c := vStart(t, "C04", "TestVerif_C04Relink")
+	defer c.Finish()
+	scratch := vEnv("VERIF_SCRATCH", t.TempDir())
+	other, err := ioutil.TempDir("/dev/shm", "verif-c04-")
+	if err != nil {
+		c.Inconclusive("no second file system: " + err.Error())
+		return
+	}
+	defer os.RemoveAll(other)
+	cam := leptonCamera("lepton3", 16, 12, 9)
+	frames := c10Frames(cam, "ffffmmmmffffffffffffffffffffffffffffffffffffmmmmffffffffffffffffffffffffffff")
+	for idx := int64(0); idx < 2; idx++ {
+		if !c.Mine(idx) {
+			continue
+		}
+		idx := idx
+		c.Case(idx, func() interface{} {
+			return map[string]interface{}{"first_target": []string{"the roomier file system", "the fuller file system"}[idx], "re-pointed_before_frame": 24}
+		}, func() {
+			freeHere, freeThere := availMB(scratch), availMB(other)
+			if freeHere < freeThere+2000 && freeThere < freeHere+2000 {
+				c.Inconclusive(fmt.Sprintf("the two file systems have about the same free space (%d MB, %d MB)", freeHere, freeThere))
+				return
+			}
+			cfg := basicConfig()
+			cfg.MinSecs, cfg.MaxSecs, cfg.PreviewSecs = 1, 2, 1
+			cfg.MinDiskMB = (freeHere + freeThere) / 2
+			r, err := prepareConn(scratch, cfg, cam)
+			if err != nil {
+				c.Inconclusive("prepareConn: " + err.Error())
+				return
+			}
+			defer r.cleanup()
+			roomy, tight := filepath.Join(r.Dir, "store"), filepath.Join(other, fmt.Sprintf("store%d", idx))
+			if freeThere > freeHere {
+				roomy, tight = tight, roomy
+			}
+			os.MkdirAll(roomy, 0755)
+			os.MkdirAll(tight, 0755)
+			first, second := roomy, tight
+			if idx == 1 {
+				first, second = tight, roomy
+			}
+			os.RemoveAll(r.OutDir)
+			if err := os.Symlink(first, r.OutDir); err != nil {
+				c.Inconclusive(err.Error())
+				return
+			}
+			var rx int64
+			r.serve(pacedFeed(cam, frames, 2*time.Millisecond), func(name string) {
+				if name == "conn.frame.received" && atomic.AddInt64(&rx, 1) == 24 {
+					os.Remove(r.OutDir)
+					os.Symlink(second, r.OutDir)
+				}
+			})
+			if r.Err != io.EOF {
+				c.Violation("pipeline-failed", "output path re-pointed", fmt.Sprintf("handleConn returned %v", r.Err))
+				return
+			}
+			nRoomy, nTight := len(decodeDir(roomy)), len(decodeDir(tight))
+			if nTight != 0 {
+				c.Violation("start-despite-closed-gate", "output path re-pointed to a fuller file system", fmt.Sprintf("%d recording(s) were started on the file system with %d MB free although min-disk-space-mb is %d (the other one has %d MB)", nTight, minU64(freeHere, freeThere), cfg.MinDiskMB, maxU64(freeHere, freeThere)))
+				return
+			}
+			if nRoomy != 1 {
+				c.Violation("missing-start", "output path re-pointed to a roomier file system", fmt.Sprintf("%d recordings on the file system with %d MB free (min-disk-space-mb %d), expected the one motion burst that happened while the output path led there", nRoomy, maxU64(freeHere, freeThere), cfg.MinDiskMB))
+				return
+			}
+			c.Count("connections_with_the_output_path_re-pointed", 1)
+			c.Nontrivial(vNewHash().Int(int(idx)).Sum())
+		})
+	}
+}
+
+func minU64(a, b uint64) uint64 {
+	if a < b {
+		return a
+	}
+	return b
+}
+func maxU64(a, b uint64) uint64 {
+	if a > b {
+		return a
+	}
+	return b
+}
+
 // TestVerif_C04PipeRetry: storage that recovers in the middle of a motion run - the refused
 // start must be retried on the next motion frame of the same run (real CheckCanRecord / statfs).
 func TestVerif_C04PipeRetry(t *testing.T) {
